@@ -283,6 +283,37 @@ def run(ctx):
                 seen12.add(q)
                 _cc12(ctx, P.B(q), 'C12.2-nothing-narrowed', include_float=False)
 
+    # element-wise comparison of two sequences stops at the shorter one: the lengths have to be compared as well
+    ctx.rule('C12.5-zip-needs-length', 'every helper on the comparison path that walks two slices in step (zip) also compares their lengths (before the walk or as the tie-break after it): '
+             'without it a sequence and its proper prefix compare Equal - two funs whose environments are [1] and [1,2] become the same map key', floor=2)
+    from ..families import bodies_of_fn as _bf12, comparator_calls as _cmpc
+    seen_z = set()
+    for root in (CMP_O, CMP_B):
+        if root not in ctx.F.bodies:
+            continue
+        for q in sorted(P.reachable_from([root])):
+            base = q.split('::{')[0]
+            if ctx.F.bodies[q]['crate'] != 'erltf' or base in seen_z or base in (CMP_O, CMP_B) or ctx.F.bodies[q]['kind'] == 'Closure':
+                continue
+            bodies = _bf12(P, base)
+            zips = [(XB, bb) for XB in bodies for bb, t in XB.calls() if (callee_of(t)[0] or '').endswith('Iterator::zip') or (callee_of(t)[0] or '').endswith('::zip')]
+            if not zips:
+                continue
+            b0 = ctx.F.bodies.get(base)
+            if not b0 or sum(1 for i_ in range(1, b0.get('argc', 0) + 1) if b0['locals'][i_]['ty'].startswith('&[') or 'Vec<' in b0['locals'][i_]['ty']) < 2:
+                continue
+            seen_z.add(base)
+            has_len = False
+            for XB in bodies:
+                for bb, nm, (ca, cb) in _cmpc(XB):
+                    if isinstance(ca, tuple) and isinstance(cb, tuple) and ca and cb and ca[0] == 'len' and cb[0] == 'len' and ca != cb:
+                        has_len = True
+            if has_len:
+                ctx.ok('C12.5-zip-needs-length', base.rsplit('::', 1)[-1], 'walks both slices in step and compares their lengths', ctx.where(zips[0][0], zips[0][1]))
+            else:
+                ctx.bad('C12.5-zip-needs-length', base.rsplit('::', 1)[-1], '%s compares two sequences element by element over their common prefix and never compares their lengths: a sequence and a proper prefix of it are Equal'
+                        % base.rsplit('::', 1)[-1], ctx.where(zips[0][0], zips[0][1]), key='SHAPE:%s:zip-without-length' % base)
+
 
 def _digit_walk(P, fn):
     """How does helper `fn` (and its closures) walk two digit slices?  ('ok'|'bad'|'undecided', why)"""
